@@ -17,7 +17,9 @@ fn fnv(h: &mut u64, bytes: &[u8]) {
     }
 }
 
-pub fn run_twin(tr: &mut Trace, run: u64, seed: u64) -> u64 {
+/// `noinject`: the second execution chooses its injections as usual but does not hand them over (self-test of
+/// the harness: the two executions must then be indistinguishable).
+pub fn run_twin(tr: &mut Trace, run: u64, seed: u64, noinject: bool) -> u64 {
     let mut null = Trace::create("/dev/null");
     let mut injected_total = 0;
     let mut r0 = Rng::new(seed);
@@ -121,7 +123,7 @@ pub fn run_twin(tr: &mut Trace, run: u64, seed: u64) -> u64 {
                                     frame_acks: vec![uv::AckGroup { base_id: b, bitfield: *ri.pick(&[1u32, 3, 0xFFFFFFFF]), nonce: ri.chance(1, 2) }] }).write().to_vec())
                             }
                         };
-                        if let Some(b) = bytes {
+                        if let Some(b) = bytes.filter(|_| !noinject) {
                             injected_total += 1;
                             let kname = ["replay", "duplicate", "wrong-nonce", "unknown-frames"][kind as usize];
                             tr.line(json!({"ev": "Inject", "twin": 1, "k": k, "kind": kname, "len": b.len()}));
